@@ -58,8 +58,10 @@ Theorem C13_monitor_issue_clause : forall s, reachable s ->
 Proof.
   intros s R t1 t2 th1 th2 H1 H2 E P1 P2.
   apply (one_obtain_worker_per_name s R t1 t2 th1 th2 H1 H2 E).
-  - unfold pos_of in P1. destruct (t_pc th1); try discriminate; try (destruct r; discriminate); cbn; discriminate.
-  - unfold pos_of in P2. destruct (t_pc th2); try discriminate; try (destruct r; discriminate); cbn; discriminate.
+  - unfold pos_of in P1. destruct (t_pc th1); try discriminate; try (destruct r; discriminate);
+      try (destruct (at_gate _ _); discriminate); cbn; discriminate.
+  - unfold pos_of in P2. destruct (t_pc th2); try discriminate; try (destruct r; discriminate);
+      try (destruct (at_gate _ _); discriminate); cbn; discriminate.
 Qed.
 Print Assumptions C13_monitor_issue_clause.
 
@@ -264,6 +266,20 @@ Proof.
   split; [exact obtain_result_is_cached|split; [exact release_only_from_unblock|exact reentry_gets_unexpired]].
 Qed.
 Print Assumptions C13_waiters_of_a_successful_attempt_find_its_result.
+
+(** ** the issuer is asked once per renewal: a second worker — a handshake that picked the old
+    certificate from the cache while the first renewal was in flight and reaches the obtain-map section
+    just after the first worker released — finds the stored bundle no longer due (renewCert re-checks
+    under its lock, force = false) and reloads instead of issuing again.  History form in the monitor
+    ([Check.run_ok]): once the issuer has delivered for a name, nobody is at the issuer for that name
+    again until that certificate is revoked in turn. *)
+Theorem C13_renewal_not_repeated : forall s t th ch c bg st s0 b,
+  t_pc th = PRenLoad ch c bg st -> store s (t_name th) = Some s0 ->
+  needs_renew s0 = false -> revoked c = false ->
+  (forall o, thread_step s t th (AIssue o) = None) /\
+  thread_step s t th (AStep b) = Some (set_thr s t (set_pc th (PRenReload ch c bg))).
+Proof. exact renewal_not_repeated. Qed.
+Print Assumptions C13_renewal_not_repeated.
 
 (** the statement shapes of handshake.go that the LTS takes as atomic steps / literals are the
     ones in the source today (read by the translator on every run; a change breaks this proof) *)
